@@ -45,9 +45,21 @@ Clause → theorem
                                                                 iform_unforwarded_counterexample (defect #16, repaired)
   … and cuts everything between the returned candidate and the previous one        xmax_cuts_between_candidates (known finding)
   MC agreement of conditional samples / IFORM ≈ transformed IFORM              PARTIAL — observed per run
+  Monte-Carlo sample sizes (`precision_factor` in [0.1, 1]; Model/McSize.lean over ℚ, int = Nat.floor):
+  marginal_icdf draws max(⌊(1/p_small)·100·pf⌋, 100000) points ⇒ p_small·n > 100·pf − p_small      marginalN_exceedances,
+                                                                marginalN_ge_floor, marginalN_eq_formula, marginalN_mono_pf
+  conditional_icdf: 100000 ≤ n ≤ 10^7, formula in between, exceedances unless capped, monotone    condN_bounds, condN_eq_formula,
+                                                                condN_exceedances, condN_mono_pf, clampN_bounds, clampN_eq
+  p_small                                                       pSmallMarginal_le, pSmallCond_le_half, pSmallCond_pos
+  (the Float instance of the same definitions is compared with the n the real code requests, harness part F)
+  `iform_seeded_reproducible` is `rfl` on an abstract two-step model (same seed ⇒ same streams); that the code
+  forwards the model's random_state to every Monte-Carlo step is observed per run, not proven.
 -/
 import VirVerif.Model.Transform
 import VirVerif.Model.Rejection
+import VirVerif.Model.McSize
+import Mathlib.Algebra.Order.Floor.Semiring
+import Mathlib.Data.Rat.Floor
 import Mathlib.Analysis.Real.Sqrt
 import Mathlib.Analysis.Calculus.Deriv.Inv
 import Mathlib.Analysis.Calculus.Deriv.Add
@@ -740,5 +752,124 @@ theorem xmax_cuts_between_candidates :
 /-- non-vacuity of the tail case: `m = 1e-7` (then `m·max g = 1e-8 < 1e-7`) -/
 example : (0 : ℚ) < 1 / 10 ^ 7 ∧ (1 / 10 ^ 7 : ℚ) * tri 10 < 1 / 10 ^ 7 := by
   rw [tri_mode]; norm_num
+
+/-! ## Monte-Carlo sample sizes (`precision_factor`), Model/McSize.lean over ℚ with `int` = `Nat.floor` -/
+
+section mcsize
+open VirVerif.McSize
+
+/-- `Nat.floor` as the `int()` of the code (non-negative arguments) -/
+def qFloor (x : ℚ) : Nat := ⌊x⌋₊
+
+theorem marginalN_ge_floor (pSmall pf : ℚ) : 100000 ≤ marginalN qFloor pSmall pf := by
+  unfold marginalN; exact Nat.le_max_right _ _
+
+/-- the documented rule "on average precision_factor * 100 realizations exceed the quantile": the expected
+number of sample points beyond the p_small-quantile, `p_small * n`, exceeds `100 * pf - p_small`, for EVERY
+`p_small > 0` and every precision factor (the floor of 100000 only adds points) -/
+theorem marginalN_exceedances (pSmall pf : ℚ) (hp : 0 < pSmall) :
+    100 * pf - pSmall < pSmall * (marginalN qFloor pSmall pf : ℚ) := by
+  have h1 : rawN pSmall pf - 1 < (qFloor (rawN pSmall pf) : ℚ) := Nat.sub_one_lt_floor _
+  have h2 : (qFloor (rawN pSmall pf) : ℚ) ≤ (marginalN qFloor pSmall pf : ℚ) := by
+    unfold marginalN; exact_mod_cast Nat.le_max_left _ _
+  have h3 : pSmall * (rawN pSmall pf - 1) = 100 * pf - pSmall := by
+    unfold rawN; field_simp
+  have h4 : pSmall * (rawN pSmall pf - 1) < pSmall * (marginalN qFloor pSmall pf : ℚ) :=
+    mul_lt_mul_of_pos_left (lt_of_lt_of_le h1 h2) hp
+  linarith
+
+/-- above the floor the sample size IS the formula (so it depends on `precision_factor`) -/
+theorem marginalN_eq_formula (pSmall pf : ℚ) (h : 100000 ≤ qFloor (rawN pSmall pf)) :
+    marginalN qFloor pSmall pf = qFloor (rawN pSmall pf) := by
+  unfold marginalN; exact Nat.max_eq_left h
+
+theorem marginalN_mono_pf (pSmall pf pf' : ℚ) (hp : 0 < pSmall) (h : pf ≤ pf') :
+    marginalN qFloor pSmall pf ≤ marginalN qFloor pSmall pf' := by
+  unfold marginalN
+  have : rawN pSmall pf ≤ rawN pSmall pf' := by
+    unfold rawN
+    have : 0 ≤ 1 / pSmall := by positivity
+    nlinarith
+  exact max_le_max (Nat.floor_mono this) le_rfl
+
+theorem pSmallMarginal_le (pMin pMax : ℚ) :
+    pSmallMarginal pMin pMax ≤ pMin ∧ pSmallMarginal pMin pMax ≤ 1 - pMax := by
+  unfold pSmallMarginal
+  split
+  · constructor <;> linarith
+  · constructor <;> linarith
+
+theorem pSmallCond_le_half (p : ℚ) : pSmallCond (1 / 2) p ≤ 1 / 2 := by
+  unfold pSmallCond; split <;> linarith
+
+theorem pSmallCond_pos (p : ℚ) (h0 : 0 < p) (h1 : p < 1) : 0 < pSmallCond (1 / 2) p := by
+  unfold pSmallCond; split <;> linarith
+
+theorem clampN_bounds (x : ℚ) : 100000 ≤ clampN x ∧ clampN x ≤ 10000000 := by
+  unfold clampN lowC
+  constructor
+  · split_ifs <;> linarith
+  · split_ifs <;> linarith
+
+theorem clampN_eq (x : ℚ) (h1 : 100000 ≤ x) (h2 : x ≤ 10000000) : clampN x = x := by
+  unfold clampN lowC
+  rw [if_neg (not_lt.mpr h1), if_neg (not_lt.mpr h2)]
+
+theorem condN_bounds (p pf : ℚ) :
+    100000 ≤ condN qFloor (1 / 2) p pf ∧ condN qFloor (1 / 2) p pf ≤ 10000000 := by
+  unfold condN qFloor
+  obtain ⟨h1, h2⟩ := clampN_bounds (rawN (pSmallCond (1 / 2) p) pf)
+  constructor
+  · exact Nat.le_floor (by exact_mod_cast h1)
+  · exact Nat.floor_le_of_le (by exact_mod_cast h2)
+
+/-- between floor and cap the conditional sample size is the formula -/
+theorem condN_eq_formula (p pf : ℚ) (h1 : 100000 ≤ rawN (pSmallCond (1 / 2) p) pf)
+    (h2 : rawN (pSmallCond (1 / 2) p) pf ≤ 10000000) :
+    condN qFloor (1 / 2) p pf = qFloor (rawN (pSmallCond (1 / 2) p) pf) := by
+  unfold condN; rw [clampN_eq _ h1 h2]
+
+/-- as long as the cap of 10^7 is not hit, at least `100 * pf - p_small` points are expected beyond the
+quantile on its shorter side; when the cap is hit (p_small < 10^-5 * pf) this is NOT the case -/
+theorem condN_exceedances (p pf : ℚ) (h0 : 0 < p) (h1 : p < 1)
+    (hcap : rawN (pSmallCond (1 / 2) p) pf ≤ 10000000) :
+    100 * pf - pSmallCond (1 / 2) p < pSmallCond (1 / 2) p * (condN qFloor (1 / 2) p pf : ℚ) := by
+  have hp := pSmallCond_pos p h0 h1
+  set q := pSmallCond (1 / 2) p with hq
+  have hx : rawN q pf ≤ clampN (rawN q pf) := by
+    unfold clampN lowC
+    split_ifs <;> linarith
+  have hf : clampN (rawN q pf) - 1 < (condN qFloor (1 / 2) p pf : ℚ) := by
+    unfold condN qFloor; rw [← hq]; exact Nat.sub_one_lt_floor _
+  have h3 : q * (rawN q pf - 1) = 100 * pf - q := by
+    unfold rawN; field_simp
+  have h4 : q * (rawN q pf - 1) < q * (condN qFloor (1 / 2) p pf : ℚ) :=
+    mul_lt_mul_of_pos_left (by linarith) hp
+  linarith
+
+theorem condN_mono_pf (p pf pf' : ℚ) (h0 : 0 < p) (h1 : p < 1) (h : pf ≤ pf') :
+    condN qFloor (1 / 2) p pf ≤ condN qFloor (1 / 2) p pf' := by
+  have hp := pSmallCond_pos p h0 h1
+  unfold condN qFloor
+  apply Nat.floor_mono
+  have hr : rawN (pSmallCond (1 / 2) p) pf ≤ rawN (pSmallCond (1 / 2) p) pf' := by
+    unfold rawN
+    have : 0 ≤ 1 / pSmallCond (1 / 2) p := by positivity
+    nlinarith
+  unfold clampN lowC
+  split_ifs <;> linarith
+
+/-- non-vacuity / the formula is not the constant floor: p_small = 10^-6 needs 10^8 points at precision factor 1,
+10^7 at 0.1 (marginal, no cap); the conditional rule caps the first at 10^7; in the bulk both sit on the floor -/
+example : marginalN qFloor (1 / 1000000) 1 = 100000000 ∧ marginalN qFloor (1 / 1000000) (1 / 10) = 10000000 ∧
+    marginalN qFloor (1 / 4) 1 = 100000 := by
+  refine ⟨?_, ?_, ?_⟩ <;> · unfold marginalN rawN qFloor; norm_num
+
+example :
+    condN qFloor (1 / 2) (1 - 1 / 1000000) 1 = 10000000 ∧ condN qFloor (1 / 2) (1 / 100000) (1 / 2) = 5000000 ∧
+    condN qFloor (1 / 2) (9 / 10) 1 = 100000 := by
+  refine ⟨?_, ?_, ?_⟩ <;> · unfold condN clampN lowC rawN pSmallCond qFloor; norm_num
+
+end mcsize
 
 end VirVerif.C16
